@@ -46,6 +46,8 @@ enum Op {
 	Segmenter,
 	/// one call of every other public read API of Chain (index into `api_sweep`)
 	Api(usize),
+	/// Chain::head(): one short read transaction of the chain's database
+	Head,
 }
 
 struct Harness {
@@ -85,6 +87,10 @@ fn harnesses(tier: Tier) -> Vec<Harness> {
 		// heavier fork reorgs it out again: what compaction removed must not be needed then
 		Harness { bounds: (1, 1), name: "e3:compact+spending-block,then-reorg", universe: "long", prelude: vec!["*main"], threads: vec![("compactor", vec![Op::Compact]), ("peer", vec![Op::B("z91")])] },
 	];
+	// two API threads whose short database reads end at the same time, with the accesses to the atomics of the
+	// store's resize gate as scheduling points (two preemptions: both must have read the transaction counter
+	// before either writes it back); afterwards the node keeps writing until the database map has to grow
+	v.push(Harness { bounds: (2, 2), name: "s:two-readers,then-db-growth", universe: "forks", prelude: base5.clone(), threads: vec![("api1", vec![Op::Head]), ("api2", vec![Op::Head])] });
 	if tier == Tier::Thorough {
 		v.push(Harness { bounds: (1, 1), name: "a2:reorg+reader", universe: "forks", prelude: vec!["B(m1)", "B(m2)", "B(m3)", "B(m4)", "B(m5)", "B(m6)", "B(f5)", "B(f6)"], threads: vec![("peer1", vec![Op::B("f7")]), ("reader", vec![Op::Read, Op::Unspent, Op::Read])] });
 		v.push(Harness { bounds: (1, 1), name: "g:validate+header", universe: "forks", prelude: base5.clone(), threads: vec![("validator", vec![Op::Validate]), ("hdr", vec![Op::H("m5")]), ("peer", vec![Op::B("f5")])] });
@@ -271,6 +277,11 @@ fn run_op(chain: &Chain, cx: &Ctx, op: &Op, tname: &str, log: &Mutex<Vec<Obs>>) 
 			obs.what = w;
 			obs.ok = ok;
 		}
+		Op::Head => {
+			let r = chain.head();
+			obs.what = format!("head() -> {:?}", r.as_ref().map(|t| t.height).map_err(|e| format!("{:?}", e)));
+			obs.ok = r.is_ok();
+		}
 		Op::Segmenter => {
 			let r = chain.segmenter();
 			let ok = match r {
@@ -292,7 +303,37 @@ fn run_op(chain: &Chain, cx: &Ctx, op: &Op, tname: &str, log: &Mutex<Vec<Obs>>) 
 	log.lock().unwrap().push(obs);
 }
 
+/// The node keeps writing: batches of 64 KiB through the chain's own store until the 1 MiB test-mode map must
+/// have been enlarged at least once. Run on a thread of its own with a time limit: a store whose resize gate is
+/// stuck never returns from batch().
+fn grow_db(chain: &Arc<Chain>) -> Result<(), String> {
+	let (tx, rx) = std::sync::mpsc::channel();
+	let c = chain.clone();
+	std::thread::spawn(move || {
+		uni::init_thread();
+		let blob = vec![0x5au8; 64 * 1024];
+		let mut res: Result<(), String> = Ok(());
+		for i in 0..18u32 {
+			let r = c.store().batch().map_err(|e| format!("{:?}", e)).and_then(|mut b| {
+				b.db.put(None, format!("gv-grow-{}", i).as_bytes(), &blob).map_err(|e| format!("{:?}", e))?;
+				b.commit().map_err(|e| format!("{:?}", e))
+			});
+			if let Err(e) = r {
+				res = Err(format!("batch {} of the growth phase failed: {}", i, e));
+				break;
+			}
+		}
+		let _ = tx.send(res);
+	});
+	match rx.recv_timeout(std::time::Duration::from_secs(30)) {
+		Ok(r) => r,
+		Err(_) => Err("the chain's database never returns from batch(): after all threads finished no transaction is open, yet the map resize waits for one to close (30 s)".into()),
+	}
+}
+
 struct Exec {
+	/// outcome of the growth phase (harnesses named s:*)
+	post: Option<String>,
 	verdict: Verdict,
 	trace: Vec<Step>,
 	panics: Vec<(String, String)>,
@@ -321,10 +362,19 @@ fn execute(h: &Harness, base: &Path, sc: &uni::Scratch, cx: &Arc<Ctx>, choices: 
 			}
 		}));
 	}
+	grin_util::verif::set_atomic_points(h.name.starts_with("s:"));
 	let (verdict, trace, panics) = sched.run(bodies);
+	grin_util::verif::set_atomic_points(false);
 	let obs = log.lock().unwrap().clone();
 	let mut final_fp = None;
 	let mut validate = None;
+	let mut post = None;
+	if matches!(verdict, Verdict::Completed) && h.name.starts_with("s:") {
+		if let Err(e) = grow_db(&chain) {
+			// the growth thread may be stuck inside the store for good: nothing of this execution is touched again
+			return Exec { post: Some(e), verdict, trace, panics, obs, final_fp: None, validate: None };
+		}
+	}
 	if matches!(verdict, Verdict::Completed) {
 		for n in post_of(h.name) {
 			let i = cx.tree.blocks.iter().position(|b| b.name == n).expect("post block");
@@ -337,7 +387,8 @@ fn execute(h: &Harness, base: &Path, sc: &uni::Scratch, cx: &Arc<Ctx>, choices: 
 		drop(chain);
 		let _ = std::fs::remove_dir_all(&dir);
 	}
-	Exec { verdict, trace, panics, obs, final_fp, validate }
+	let _ = &mut post;
+	Exec { post, verdict, trace, panics, obs, final_fp, validate }
 }
 
 /// fingerprints of every sequential order of the mutating operations
@@ -362,7 +413,7 @@ fn sequential_fps(h: &Harness, base: &Path, sc: &uni::Scratch, cx: &Arc<Ctx>) ->
 		}
 		out
 	}
-	let lists: Vec<Vec<(usize, Op)>> = h.threads.iter().enumerate().map(|(t, (_, ops))| ops.iter().filter(|o| !matches!(o, Op::Read | Op::Unspent | Op::ValidateTx | Op::ValidateTxNrd | Op::SetRoots | Op::Validate | Op::Segmenter | Op::Api(_))).map(|o| (t, o.clone())).collect()).collect();
+	let lists: Vec<Vec<(usize, Op)>> = h.threads.iter().enumerate().map(|(t, (_, ops))| ops.iter().filter(|o| !matches!(o, Op::Read | Op::Unspent | Op::ValidateTx | Op::ValidateTxNrd | Op::SetRoots | Op::Validate | Op::Segmenter | Op::Api(_) | Op::Head)).map(|o| (t, o.clone())).collect()).collect();
 	let mut set = BTreeSet::new();
 	for order in interleavings(&lists) {
 		let dir = sc.fresh("seq");
@@ -427,6 +478,11 @@ impl<'a> Explore<'a> {
 				self.dead = true;
 				return;
 			}
+			Verdict::Unsafe(m) => {
+				rep.violation(format!("{}:unsafe", self.h.name), m.clone(), case.clone());
+				self.dead = true;
+				return;
+			}
 			Verdict::Divergence(m) => {
 				eprintln!("MACHINERY: replay divergence in {}: {}", self.h.name, m);
 				std::process::exit(2);
@@ -438,6 +494,11 @@ impl<'a> Explore<'a> {
 		}
 		for (t, m) in &x.panics {
 			rep.violation(format!("{}:panic:{}", self.h.name, t), format!("thread {} panicked: {}", t, m), case.clone());
+		}
+		if let Some(e) = &x.post {
+			rep.violation(format!("{}:store-stalled-afterwards", self.h.name), e.clone(), case.clone());
+			self.dead = true;
+			return;
 		}
 		for o in &x.obs {
 			if o.what.starts_with("validate_tx") {
